@@ -326,7 +326,7 @@ func (r *Run) Finish() {
 		}
 		sort.Strings(l)
 		cov[k+"_count"] = len(l)
-		if len(l) <= 400 {
+		if len(l) <= 1200 {
 			cov[k] = l
 		}
 	}
